@@ -1,5 +1,449 @@
-use crate::mc::Eng;
+//! C05 — stateful streams: no stale errors, reset erases history, get is pure; freeze machine.
+use crate::env::*;
+use crate::mc::*;
 use crate::Ctx;
-pub fn run(_ctx: &Ctx) -> Vec<Eng> {
-    vec![]
+use rrtk::streams::control::*;
+use rrtk::streams::converters::*;
+use rrtk::streams::flow::*;
+use rrtk::streams::math::*;
+use rrtk::*;
+use std::cell::RefCell;
+use std::rc::Rc;
+
+#[derive(Clone, Copy, Debug, PartialEq, Eq)]
+pub enum Ev {
+    P(usize),
+    N,
+    Er(u8),
+}
+pub const VALS: [f32; 2] = [1.0, -2.0];
+
+pub fn ev_name(e: &Ev) -> String {
+    match e {
+        Ev::P(i) => format!("P({})", VALS[*i]),
+        Ev::N => "N".into(),
+        Ev::Er(c) => format!("E{}", c),
+    }
+}
+pub fn hist_name(h: &[Ev]) -> String {
+    h.iter().map(ev_name).collect::<Vec<_>>().join(",")
+}
+
+/// A real stream under test together with its scripted input.
+pub trait Subj {
+    fn feed(&mut self, ev: &Ev, t: i64);
+    fn poison(&mut self);
+    fn update(&mut self) -> u32;
+    fn get(&self) -> Obs;
+}
+
+struct Sub<I: Clone, S> {
+    inp: Rc<RefCell<Scr<I>>>,
+    s: S,
+    mk: fn(f32) -> I,
+    g: fn(&S) -> Obs,
+    u: fn(&mut S) -> NothingOrError<E>,
+}
+impl<I: Clone, S> Subj for Sub<I, S> {
+    fn feed(&mut self, ev: &Ev, t: i64) {
+        self.inp.borrow_mut().next = match ev {
+            Ev::P(i) => Ok(Some(Datum::new(Time(t), (self.mk)(VALS[*i])))),
+            Ev::N => Ok(None),
+            Ev::Er(c) => Err(Error::Other(*c)),
+        };
+    }
+    fn poison(&mut self) {
+        self.inp.borrow_mut().next = Ok(Some(Datum::new(Time(-777), (self.mk)(12345.0))));
+    }
+    fn update(&mut self) -> u32 {
+        obs_unit(&(self.u)(&mut self.s))
+    }
+    fn get(&self) -> Obs {
+        (self.g)(&self.s)
+    }
+}
+
+pub const KIND_NAMES: [&str; 15] = [
+    "pid",
+    "command_pid_position",
+    "command_pid_velocity",
+    "command_pid_acceleration",
+    "ewma_f32",
+    "ewma_quantity",
+    "moving_average_f32",
+    "moving_average_quantity",
+    "integral",
+    "derivative",
+    "acceleration_to_state",
+    "velocity_to_state",
+    "position_to_state",
+    "float_to_quantity",
+    "quantity_to_float",
+];
+/// (reset on absent, reset on error, ignores absent, memoryless)
+pub fn policy(kind: usize) -> (bool, bool, bool, bool) {
+    match kind {
+        0..=3 => (true, true, false, false),
+        4..=7 => (false, true, true, false),
+        8 | 9 => (true, true, false, false),
+        10..=12 => (false, true, true, false),
+        _ => (true, true, false, true),
+    }
+}
+
+fn kvals() -> PositionDerivativeDependentPIDKValues {
+    PositionDerivativeDependentPIDKValues::new(
+        PIDKValues::new(2.0, 0.5, 0.25),
+        PIDKValues::new(1.0, 0.25, 0.5),
+        PIDKValues::new(0.5, 1.0, 2.0),
+    )
+}
+
+pub fn make(kind: usize) -> Box<dyn Subj> {
+    macro_rules! sub {
+        ($I:ty, $mk:expr, $ctor:expr) => {{
+            let inp = rc(Scr::<$I>::new(Ok(None)));
+            let s = $ctor(rf(&inp));
+            Box::new(Sub {
+                inp,
+                s,
+                mk: $mk,
+                g: |s| obs(&s.get()),
+                u: |s| s.update(),
+            })
+        }};
+    }
+    fn st(v: f32) -> State {
+        State::new_raw(v, v / 2.0, v / 4.0)
+    }
+    match kind {
+        0 => sub!(f32, |v| v, |r| PIDControllerStream::new(r, 5.0, PIDKValues::new(2.0, 0.5, 0.25))),
+        1 => sub!(State, st, |r| CommandPID::new(r, Command::Position(3.0), kvals())),
+        2 => sub!(State, st, |r| CommandPID::new(r, Command::Velocity(3.0), kvals())),
+        3 => sub!(State, st, |r| CommandPID::new(r, Command::Acceleration(3.0), kvals())),
+        4 => sub!(f32, |v| v, |r| EWMAStream::new(r, 0.5)),
+        5 => sub!(Quantity, |v| Quantity::new(v, MILLIMETER), |r| EWMAStream::new(r, 0.5)),
+        6 => sub!(f32, |v| v, |r| MovingAverageStream::new(r, Time(5 * S / 2))),
+        7 => sub!(Quantity, |v| Quantity::new(v, MILLIMETER), |r| MovingAverageStream::new(r, Time(5 * S / 2))),
+        8 => sub!(Quantity, |v| Quantity::new(v, MILLIMETER), |r| IntegralStream::new(r)),
+        9 => sub!(Quantity, |v| Quantity::new(v, MILLIMETER), |r| DerivativeStream::new(r)),
+        10 => sub!(Quantity, |v| Quantity::new(v, MILLIMETER_PER_SECOND_SQUARED), |r| AccelerationToState::new(r)),
+        11 => sub!(Quantity, |v| Quantity::new(v, MILLIMETER_PER_SECOND), |r| VelocityToState::new(r)),
+        12 => sub!(Quantity, |v| Quantity::new(v, MILLIMETER), |r| PositionToState::new(r)),
+        13 => sub!(f32, |v| v, |r| FloatToQuantity::new(MILLIMETER_PER_SECOND, r)),
+        14 => sub!(Quantity, |v| Quantity::new(v, MILLIMETER), |r| QuantityToFloat::new(r)),
+        _ => unreachable!(),
+    }
+}
+
+/// Run history h (absolute times: event k at (k+1) s, or the given times) with get() called
+/// twice per step around an input poisoning; returns (update result, get) per step.
+pub fn run_full(kind: usize, h: &[Ev], times: &[i64], impure: &mut bool) -> Vec<(u32, Obs)> {
+    let mut s = make(kind);
+    let mut out = Vec::with_capacity(h.len());
+    for (k, ev) in h.iter().enumerate() {
+        s.feed(ev, times[k]);
+        let u = s.update();
+        let g1 = s.get();
+        s.poison();
+        let g2 = s.get();
+        let g3 = s.get();
+        if g1 != g2 || g2 != g3 {
+            *impure = true;
+        }
+        out.push((u, g1));
+    }
+    out
+}
+/// Same history, but get() is only called once, after the last event.
+pub fn run_lazy(kind: usize, h: &[Ev], times: &[i64]) -> Obs {
+    let mut s = make(kind);
+    for (k, ev) in h.iter().enumerate() {
+        s.feed(ev, times[k]);
+        let _ = s.update();
+    }
+    s.get()
+}
+
+pub fn check_history(kind: usize, h: &[Ev], e: &mut Eng) -> u64 {
+    let n = h.len();
+    let times: Vec<i64> = (0..n).map(|k| (k as i64 + 1) * S).collect();
+    let name = KIND_NAMES[kind];
+    let (rst_n, rst_e, ign_n, memless) = policy(kind);
+    let mut applied = 0u64;
+    let mut impure = false;
+    let main = match guard(|| run_full(kind, h, &times, &mut impure)) {
+        Ok(m) => m,
+        Err(m) => {
+            e.violation(&format!("stateful:{}:panic", name), n, || format!("history [{}] panicked: {}", hist_name(h), m));
+            return n as u64;
+        }
+    };
+    applied += n as u64;
+    e.outcome(h64(&(kind, &main)));
+    if impure {
+        e.violation(&format!("stateful:{}:get-impure", name), n, || {
+            format!("history [{}]: repeated get() (with the input changed in between) returned different values", hist_name(h))
+        });
+    }
+    // (a) no stale error
+    for k in 0..n {
+        e.checks += 1;
+        let g = main[k].1;
+        if g.is_err() {
+            let ok = matches!(h[k], Ev::Er(c) if Obs::err(&Error::Other(c)) == g);
+            if !ok {
+                e.violation(&format!("stateful:{}:stale-error", name), k + 1, || {
+                    format!("history [{}]: after event {} get() = {} although the input did not return that error at the most recent update", hist_name(&h[..=k]), k, g.show())
+                });
+                break;
+            }
+        }
+    }
+    // (d) lazy run agrees at the end
+    match guard(|| run_lazy(kind, h, &times)) {
+        Ok(g) => {
+            e.checks += 1;
+            if g != main[n - 1].1 {
+                e.violation(&format!("stateful:{}:get-affects-later", name), n, || {
+                    format!("history [{}]: final get() = {} when get() was called after every update, {} when it was not", hist_name(h), main[n - 1].1.show(), g.show())
+                });
+            }
+        }
+        Err(m) => e.violation(&format!("stateful:{}:panic", name), n, || format!("lazy run of [{}] panicked: {}", hist_name(h), m)),
+    }
+    applied += n as u64;
+    // (b) reset equivalence: a fresh stream fed h[i..] agrees at every later step
+    let mut nontrivial = false;
+    for i in 0..n {
+        let is_reset = memless
+            || match h[i] {
+                Ev::N => rst_n,
+                Ev::Er(_) => rst_e,
+                Ev::P(_) => false,
+            };
+        if !is_reset || i + 1 >= n {
+            continue;
+        }
+        if h[i + 1..].iter().any(|x| matches!(x, Ev::P(_))) && i > 0 {
+            nontrivial = true;
+        }
+        let mut imp2 = false;
+        let fresh = match guard(|| run_full(kind, &h[i..], &times[i..], &mut imp2)) {
+            Ok(f) => f,
+            Err(_) => continue,
+        };
+        applied += (n - i) as u64;
+        for j in i + 1..n {
+            e.checks += 1;
+            if fresh[j - i] != main[j] {
+                e.violation(&format!("stateful:{}:reset-not-clean", name), n, || {
+                    format!(
+                        "history [{}]: event {} ({}) is a reset, but at event {} the stream gives (update {}, get {}) while a fresh stream fed only [{}] gives (update {}, get {})",
+                        hist_name(h), i, ev_name(&h[i]), j, main[j].0, main[j].1.show(), hist_name(&h[i..]), fresh[j - i].0, fresh[j - i].1.show()
+                    )
+                });
+                break;
+            }
+        }
+    }
+    // (c) deleting ignored absent events changes nothing at the surviving events
+    if ign_n && h.iter().any(|x| *x == Ev::N) {
+        let keep: Vec<usize> = (0..n).filter(|&k| h[k] != Ev::N).collect();
+        if !keep.is_empty() {
+            let h2: Vec<Ev> = keep.iter().map(|&k| h[k]).collect();
+            let t2: Vec<i64> = keep.iter().map(|&k| times[k]).collect();
+            let mut imp2 = false;
+            if let Ok(del) = guard(|| run_full(kind, &h2, &t2, &mut imp2)) {
+                applied += h2.len() as u64;
+                nontrivial = true;
+                for (idx, &k) in keep.iter().enumerate() {
+                    e.checks += 1;
+                    if del[idx] != main[k] {
+                        e.violation(&format!("stateful:{}:absent-not-ignored", name), n, || {
+                            format!(
+                                "history [{}]: at event {} the stream gives (update {}, get {}) but with the absent events deleted it gives (update {}, get {})",
+                                hist_name(h), k, main[k].0, main[k].1.show(), del[idx].0, del[idx].1.show()
+                            )
+                        });
+                        break;
+                    }
+                }
+            }
+        }
+    }
+    if nontrivial {
+        e.nontrivial += 1;
+    }
+    applied
+}
+
+const SYMS: [Ev; 5] = [Ev::P(0), Ev::P(1), Ev::N, Ev::Er(1), Ev::Er(2)];
+
+// ---------------------------------------------------------------- freeze
+#[derive(Clone, Copy, Debug, PartialEq, Eq)]
+enum Cond {
+    T,
+    F,
+    N,
+    Er,
+}
+const CONDS: [Cond; 4] = [Cond::F, Cond::T, Cond::N, Cond::Er];
+const FIN: [Ev; 4] = [Ev::P(0), Ev::P(1), Ev::N, Ev::Er(2)];
+
+fn freeze_history(seq: &[usize], e: &mut Eng) -> u64 {
+    let n = seq.len();
+    let desc = |upto: usize| {
+        seq[..=upto]
+            .iter()
+            .map(|&s| format!("({:?},{})", CONDS[s / 4], ev_name(&FIN[s % 4])))
+            .collect::<Vec<_>>()
+            .join(",")
+    };
+    let r = guard(|| {
+        let cond = rc(Scr::<bool>::new(Ok(None)));
+        let inp = rc(Scr::<f32>::new(Ok(None)));
+        let mut fz = FreezeStream::new(rf(&cond), rf(&inp));
+        let mut out = Vec::new();
+        for (k, &s) in seq.iter().enumerate() {
+            let t = (k as i64 + 1) * S;
+            cond.borrow_mut().next = match CONDS[s / 4] {
+                Cond::T => Ok(Some(Datum::new(Time(t), true))),
+                Cond::F => Ok(Some(Datum::new(Time(t), false))),
+                Cond::N => Ok(None),
+                Cond::Er => Err(E1),
+            };
+            let input: Output<f32, E> = match FIN[s % 4] {
+                Ev::P(i) => Ok(Some(Datum::new(Time(t - 1), VALS[i] + k as f32))),
+                Ev::N => Ok(None),
+                Ev::Er(c) => Err(Error::Other(c)),
+            };
+            inp.borrow_mut().next = input.clone();
+            let u = fz.update();
+            let g1 = obs(&fz.get());
+            // poison both inputs: get() must not depend on them
+            inp.borrow_mut().next = Ok(Some(Datum::new(Time(-5), 999.0)));
+            cond.borrow_mut().next = Ok(Some(Datum::new(Time(-5), false)));
+            let g2 = obs(&fz.get());
+            out.push((obs_unit(&u), g1, g2, obs(&input)));
+        }
+        out
+    });
+    let out = match r {
+        Ok(o) => o,
+        Err(m) => {
+            e.violation("freeze:panic", n, || format!("history [{}] panicked: {}", desc(n - 1), m));
+            return n as u64;
+        }
+    };
+    e.outcome(h64(&out));
+    let mut constrained = false;
+    let mut prev = Obs::NONE;
+    let mut saw_freeze = false;
+    for k in 0..n {
+        let (_u, g1, g2, input) = out[k];
+        e.checks += 1;
+        if g1 != g2 {
+            e.violation("freeze:get-impure", k + 1, || format!("history [{}]: get() changed when the inputs changed without an update", desc(k)));
+        }
+        match CONDS[seq[k] / 4] {
+            Cond::F => {
+                if g1 != input {
+                    e.violation("freeze:unfrozen-not-passthrough", k + 1, || {
+                        format!("history [{}]: condition false, input returned {} but get() = {}", desc(k), input.show(), g1.show())
+                    });
+                }
+                constrained = true;
+            }
+            Cond::T => {
+                if constrained {
+                    saw_freeze = true;
+                    if g1 != prev {
+                        e.violation("freeze:frozen-value-changed", k + 1, || {
+                            format!("history [{}]: condition true, get() changed from {} to {}", desc(k), prev.show(), g1.show())
+                        });
+                    }
+                }
+            }
+            Cond::N => {
+                if !g1.is_none() {
+                    e.violation("freeze:absent-condition-not-absent", k + 1, || {
+                        format!("history [{}]: condition absent but get() = {}", desc(k), g1.show())
+                    });
+                }
+                constrained = false;
+            }
+            Cond::Er => {
+                constrained = false;
+            }
+        }
+        prev = g1;
+    }
+    if saw_freeze {
+        e.nontrivial += 1;
+    }
+    n as u64
+}
+
+pub fn run(ctx: &Ctx) -> Vec<Eng> {
+    let depth = if ctx.thorough { 10 } else { 8 };
+    let budget = Budget::secs(if ctx.thorough { 1500 } else { 120 });
+    let mut engines = Vec::new();
+    let mut e1 = Eng::new(
+        "c05-seqs",
+        "all histories of exactly `depth` events over {P(1), P(-2), N, E1, E2} (clock +1 s per event; every shorter history is a prefix and is judged at every step) for each of 15 stateful stream variants; oracles: no stale error, reset == fresh real stream on the suffix (bit equality of update and get results), deletion of ignored absent events, get purity with the input poisoned between calls, lazy-get run; non-trivial = history with a recovery after a reset event or with deleted absent events",
+        &format!("depth {} => 5^{} histories x 15 streams", depth, depth),
+    );
+    for kind in 0..15 {
+        par_seqs(&mut e1, 5, depth, budget, |seq, e| {
+            let h: Vec<Ev> = seq.iter().map(|&s| SYMS[s]).collect();
+            let a = check_history(kind, &h, e);
+            e.sample(|| format!("{}: [{}]", KIND_NAMES[kind], hist_name(&h)));
+            a
+        });
+    }
+    engines.push(e1);
+
+    let (hz, k) = if ctx.thorough { (48, 3) } else { (24, 2) };
+    let mut e2 = Eng::new(
+        "c05-deviations",
+        "all histories of exactly H events that differ from the default stream (alternating present samples) in at most k positions, each deviation being one of {N, E1, E2, repeated value}; same oracles as c05-seqs; non-trivial as above",
+        &format!("H={} k={} x 15 streams", hz, k),
+    );
+    let cases = deviation_cases(hz, 4, k);
+    for kind in 0..15 {
+        par_cases(&mut e2, &cases, budget, |c, e| {
+            let mut h: Vec<Ev> = (0..hz).map(|i| Ev::P(i % 2)).collect();
+            for &(p, a) in c {
+                h[p as usize] = match a {
+                    0 => Ev::N,
+                    1 => Ev::Er(1),
+                    2 => Ev::Er(2),
+                    _ => Ev::P((p as usize + 1) % 2),
+                };
+            }
+            e.executions += 1;
+            e.states += 1;
+            e.max_depth = e.max_depth.max(hz as u64);
+            e.transitions += check_history(kind, &h, e);
+            if c.len() == k {
+                e.sample(|| format!("{}: [{}]", KIND_NAMES[kind], hist_name(&h)));
+            }
+        });
+    }
+    engines.push(e2);
+
+    let fdepth = if ctx.thorough { 6 } else { 4 };
+    let mut e3 = Eng::new(
+        "c05-freeze",
+        "all histories of exactly `depth` rounds over condition {false,true,absent,E1} x input {P,P',absent,E2}; reference machine: condition false => get == what the input returned now; true after a false (possibly through more trues) => unchanged; absent => Ok(None); steps after an absent/erroring condition until the next false are unconstrained; get purity with both inputs poisoned; non-trivial = history in which a constrained freeze step occurs",
+        &format!("depth {} => 16^{} histories", fdepth, fdepth),
+    );
+    par_seqs(&mut e3, 16, fdepth, budget, |seq, e| {
+        let a = freeze_history(seq, e);
+        e.sample(|| format!("{:?}", seq));
+        a
+    });
+    engines.push(e3);
+    engines
 }
